@@ -9,13 +9,14 @@ def main(tier, replay=None):
     M = "monitors=C04"
     q = tier == "quick"
     fams = [
-        dict(name="outcomes-l1r1", opts=[M, "msgs=l1r1"], bounds="0,0,0,%d" % (2 if q else 3), total=3),
-        dict(name="passes-l3", opts=[M, "msgs=l3", "concl=3", "verdicts=KZ", "reorder=1", "signals=0"], bounds="0,0,0,%d" % (3 if q else 4), total=4),
-        dict(name="passes-l2-all-verdicts", opts=[M, "msgs=l2", "signals=0"], bounds="0,0,0,%d" % (2 if q else 3), total=3),
-        dict(name="lost-spawner-restart-l3", opts=[M, "msgs=l3", "concl=2", "signals=0", "verdicts=KDE", "reorder=2"], bounds="0,0,0,%d" % (2 if q else 3), total=3),
-        dict(name="crash-l1r1", opts=[M, "msgs=l1r1", "signals=0"], bounds="0,0,1,1", total=2),
-        dict(name="crash-l2", opts=[M, "msgs=l2", "signals=0", "verdicts=KZD", "reorder=1"], bounds="0,0,1,%d" % (1 if q else 2), total=3),
-        dict(name="term-restart-l3", opts=[M, "msgs=l3", "concl=2", "verdicts=KZ", "reorder=2"], bounds="0,0,0,%d" % (2 if q else 3), total=3),
+        dict(name="outcomes-l1r1", opts=[M, "msgs=l1r1"], bounds="0,0,0,%d" % (2 if q else 4), total=4, deadline=1800),
+        dict(name="passes-l3", opts=[M, "msgs=l3", "concl=3", "verdicts=KZ", "reorder=1", "signals=0"], bounds="0,0,0,%d" % (3 if q else 5), total=5, deadline=1800),
+        dict(name="passes-l2-all-verdicts", opts=[M, "msgs=l2", "signals=0"], bounds="0,0,0,%d" % (2 if q else 4), total=4, deadline=1800),
+        dict(name="lost-spawner-restart-l3", opts=[M, "msgs=l3", "concl=2", "signals=0", "verdicts=KDE", "reorder=2"], bounds="0,0,0,%d" % (2 if q else 4), total=4, deadline=1800),
+        dict(name="crash-l1r1", opts=[M, "msgs=l1r1", "signals=0"], bounds="0,0,1,%d" % (1 if q else 2), total=2 if q else 3, deadline=1800),
+        dict(name="two-crashes-l1r1", opts=[M, "msgs=l1r1", "signals=0"], bounds="0,0,2,0", total=2, tier="thorough", deadline=1800),
+        dict(name="crash-l2", opts=[M, "msgs=l2", "signals=0", "verdicts=KZD", "reorder=1"], bounds="0,0,1,%d" % (1 if q else 3), total=3 if q else 4, deadline=1800),
+        dict(name="term-restart-l3", opts=[M, "msgs=l3", "concl=2", "verdicts=KZ", "reorder=2"], bounds="0,0,0,%d" % (2 if q else 4), total=4, deadline=1800),
     ]
     for cl in (0, 1, 2):
         for an in (0, 1, 2, 255):
